@@ -50,7 +50,7 @@ func (eq equator) equalMessage(mx, my pref.Message) bool {
 			equal = eq.equalField(fd, vx, vy)
 		case eq.zeroComparable(fd):
 			// y holds the zero value, a value comparer may still accept the pair (0 is within 0.5 of 0.3)
-			equal = eq.equalValue(fd, vx, vy)
+			equal = eq.equalZero(fd, vx, vy)
 		default:
 			equal = false
 		}
@@ -65,7 +65,7 @@ func (eq equator) equalMessage(mx, my pref.Message) bool {
 		case mx.Has(fd):
 			// compared above
 		case eq.zeroComparable(fd):
-			equal = eq.equalValue(fd, mx.Get(fd), vy)
+			equal = eq.equalZero(fd, mx.Get(fd), vy)
 		default:
 			equal = false
 		}
@@ -84,6 +84,14 @@ func (eq equator) equalMessage(mx, my pref.Message) bool {
 // Without a value comparer a populated field never equals an unpopulated one, as in proto.Equal.
 func (eq equator) zeroComparable(fd pref.FieldDescriptor) bool {
 	return eq.cmpValue != nil && !fd.HasPresence() && !fd.IsList() && !fd.IsMap()
+}
+
+// equalZero compares the value of a field that only one of the messages populates with the zero value the other one
+// reads as. Only a value comparer can make the two equal: without its verdict a populated field never equals an
+// unpopulated one (a populated -0.0 is not an unset 0), as in proto.Equal.
+func (eq equator) equalZero(fd pref.FieldDescriptor, x, y pref.Value) bool {
+	equal, ok := eq.cmpValue(fd, x, y)
+	return ok && equal
 }
 
 // equalField compares two fields.
